@@ -87,6 +87,11 @@ def callUnfixed (cfg : Cred) (cred : Option Cred) (extra : List (Str × Str)) : 
   let w := wire cred extra
   if wireOk w then doAuthUnfixed cfg w else .rejected
 
+/-- a history of calls on one connection (each with its own credential and metadata): the server keeps
+no authentication state, every call is decided by `call` on its own headers -/
+def serve (cfg : Cred) (history : List (Option Cred × List (Str × Str))) : List Verdict :=
+  history.map fun c => call cfg c.1 c.2
+
 /-- the caller "presents the configured username with the configured password": the first value the
 server sees under the (lower-cased) configured username is the configured password -/
 def presents (cfg : Cred) (cred : Option Cred) (extra : List (Str × Str)) : Bool :=
